@@ -52,6 +52,34 @@ func (s *Sim) Judge(stranded []string) []Finding {
 	for i := range facts {
 		facts[i] = tf{-1, -1, -1, -1, -1, false, nil}
 	}
+	// graceful Close: when Close / ForceClose returns no Do is pending; after the engine was marked closed every
+	// new Do is rejected without transmitting
+	{
+		entered, returned := map[int]bool{}, map[int]bool{}
+		marked := false
+		for i, e := range s.Trace {
+			switch e.K {
+			case "CEntered":
+				entered[e.A] = true
+				if marked {
+					add("C26", "do-accepted-after-close", "call %d entered Do (trace index %d) after the engine had been marked closed", e.A, i)
+				}
+			case "CReturn":
+				returned[e.A] = true
+				if e.O == RRejected && len(s.calls[e.A].sends) > 0 {
+					add("C26", "rejected-call-transmitted", "call %d was rejected with ErrEngineClosed but had been transmitted %d times", e.A, len(s.calls[e.A].sends))
+				}
+			case "XCloseMark":
+				marked = true
+			case "XCloseReturned":
+				for c := range entered {
+					if !returned[c] {
+						add("C26", "close-returned-with-pending-call", "Close/ForceClose returned (trace index %d) while call %d had entered Do and not returned", i, c)
+					}
+				}
+			}
+		}
+	}
 	waiting := make([]bool, len(s.calls)) // ack channel registered (waitAck .. removeAck)
 	for i, e := range s.Trace {
 		switch e.K {
